@@ -22,7 +22,7 @@ int strListGetItem(const String *str, char del, const char **item, int *ilen, co
 
 static bool ws(char c) { return c == ' ' || (c >= 9 && c <= 13); }
 static bool sep(char c, char del) { return c == del || c == ','; }
-static bool skip(char c, char del) { return sep(c, del) || c == ' ' || c == '\t' || c == '\r' || c == '\n'; }
+static bool skip(char c, char del) { return sep(c, del) || ws(c); }
 #define CHECK(c) do { if (!(c)) { fprintf(stderr, "contract violated: %s\n", #c); return 1; } } while (0)
 
 // reference tokeniser, char by char (same specification as ref_next in contract.c, written again for the native side)
@@ -66,8 +66,7 @@ static int one_call(const char *b, size_t len, bool fresh, size_t so, char del, 
     CHECK(ws(b[io + n]) || b[io + n] == 0 || sep(b[io + n], del));
     if (r) CHECK(po > so && n >= 1);
     if (!r) {
-        for (size_t k = so; k < po; ++k) CHECK(skip(b[k], del) || ws(b[k]));
-        CHECK(b[po] == 0 || b[io] == '\v' || b[io] == '\f');
+        for (size_t k = so; k < po; ++k) CHECK(skip(b[k], del));
         CHECK(b[po] == 0 /* [end of list] result 0 only at the terminator */);
     }
     bool seenQuote = false;
